@@ -499,10 +499,12 @@ class RangeNode(SyntaxNode):
                 return attach(query.error_query("Field %r is not indexed"
                                                 % fieldname), self)
 
-            if start:
+            # (A field without an analyzer, e.g. BOOLEAN, takes the bounds as
+            # they were typed)
+            if start and field.analyzer:
                 start = get_single_text(field, start, tokenize=False,
                                         removestops=False)
-            if end:
+            if end and field.analyzer:
                 end = get_single_text(field, end, tokenize=False,
                                       removestops=False)
 
